@@ -129,12 +129,16 @@ Qed.
 
 (* a format next to a type list without number and integer: the string / array shortcut of type.go:200 accepts every string
    and every array, so the list must accept strings - and arrays, when the data may hold arrays *)
-Lemma type_agree_strfmt p types format d : jd d -> contains k_number types || contains k_integer types = false ->
-  contains k_string types = true -> (allow_arr = true -> contains k_array types = true) ->
+Lemma type_agree_strfmt_gen p types format d : jd d -> contains k_number types || contains k_integer types = false ->
+  types <> [] ->
+  ((exists x, d = VStr x) -> contains k_string types = true) ->
+  ((exists id l, d = VArr id l) -> contains k_array types = true) ->
   r_valid (type_validate N p types false format d) =
   (match types with [] => true | t0 :: ts => existsb (fun t => has_type N t d) (t0 :: ts) end).
 Proof.
-  intros Hd Hnum Hstr Harr. destruct types as [|t0 ts]; [discriminate|]. set (tys := t0 :: ts) in *.
+  intros Hd Hnum Hne Hstr0 Harr0. destruct types as [|t0 ts]; [destruct (Hne eq_refl)|]. set (tys := t0 :: ts) in *.
+  assert (Hstr : forall x, d = VStr x -> contains k_string tys = true) by (intros x E; apply Hstr0; exists x; exact E).
+  assert (Harr : forall id l, d = VArr id l -> contains k_array tys = true) by (intros id l E; apply Harr0; exists id, l; exact E).
   apply orb_false_iff in Hnum. destruct Hnum as [Hn Hi].
   destruct d as [| | |d32 fd| | |idd ld| |idd md]; try (exfalso; exact Hd); unfold type_validate; cbn [info_for_type is_string_kind is_slice_kind negb andb orb].
   - transitivity (contains k_null tys); [|rewrite contains_existsb; apply existsb_ext; intros; reflexivity].
@@ -143,17 +147,28 @@ Proof.
     rewrite Hn, Hi, (Z.eqb_sym 0 format).
     destruct (contains k_boolean tys), (Z.eqb format 0), (Z.eqb format k_int64), (Z.eqb format k_float64); reflexivity.
   - transitivity (contains k_string tys); [|rewrite contains_existsb; apply existsb_ext; intros; reflexivity].
-    rewrite Hn, Hi, Hstr. destruct (Z.eqb format 0); reflexivity.
+    rewrite Hn, Hi, (Hstr _ eq_refl). destruct (Z.eqb format 0); reflexivity.
   - cbn [jd] in Hd. destruct Hd as [-> _].
     transitivity (contains k_number tys || (n_is_int N fd && contains k_integer tys)).
     { cbn [info_for_type]. rewrite Hn, Hi, !andb_false_r. cbn [orb].
       destruct (Z.eqb format 0), (Z.eqb k_float64 format), (Z.eqb format k_int64), (Z.eqb format k_float64), (Z.eqb k_number k_number), (Z.eqb k_number k_integer); reflexivity. }
     rewrite !contains_existsb. rewrite (andb_comm (n_is_int N fd)). rewrite <- existsb_and_const, <- existsb_or. reflexivity.
   - transitivity (contains k_array tys); [|rewrite contains_existsb; apply existsb_ext; intros; reflexivity].
-    apply jd_arr in Hd. destruct Hd as [Ha _]. rewrite Hn, Hi, (Harr Ha). destruct (Z.eqb format 0); reflexivity.
+    rewrite Hn, Hi, (Harr _ _ eq_refl). destruct (Z.eqb format 0); reflexivity.
   - transitivity (contains k_object tys); [|rewrite contains_existsb; apply existsb_ext; intros; reflexivity].
     rewrite Hn, Hi, (Z.eqb_sym 0 format).
     destruct (contains k_object tys), (Z.eqb format 0), (Z.eqb format k_int64), (Z.eqb format k_float64); reflexivity.
+Qed.
+
+Lemma type_agree_strfmt p types format d : jd d -> contains k_number types || contains k_integer types = false ->
+  contains k_string types = true -> (allow_arr = true -> contains k_array types = true) ->
+  r_valid (type_validate N p types false format d) =
+  (match types with [] => true | t0 :: ts => existsb (fun t => has_type N t d) (t0 :: ts) end).
+Proof.
+  intros Hd Hnum Hstr Harr. apply type_agree_strfmt_gen; try assumption.
+  - intros E. rewrite E in Hstr. discriminate.
+  - intros _. exact Hstr.
+  - intros [id [l E]]. subst d. apply jd_arr in Hd. destruct Hd as [Ha _]. apply Harr. exact Ha.
 Qed.
 
 (* 5.5.1 *)
